@@ -586,6 +586,9 @@ class Lib:
     # ---------------------------------------------------------------- builtins (b_<name>)
     def b_len(self, ex, st, node):
         v = ex.unwrap(st, ex.ev(st, node.args[0]), node, "argument of len")
+        return self.len_value(ex, st, v, node)
+
+    def len_value(self, ex, st, v, node):
         if isinstance(v.t, TSeq):
             return SV(INT, ex.seq_len(v))
         if isinstance(v.t, TDict):
